@@ -797,11 +797,13 @@ def _fresh_counter(p, fam):
                     dflt = [x for x in t if isinstance(x, tuple) and x and x[0] == "default"]
                     start_ok = over_keys and init.lin[1] >= 1 and init.lin[0][0][1] == 1 and (not dflt or dflt[0][1] == ("c", 0))
                     carried = ("carried", ev.loop, name)
-                    step_ok = all(isinstance(v, LinV) and v.lin == F.lin_add(F.lin_term(carried), F.lin_const(1)) for g, v in cs) and bool(cs)
-                    # the key used for the store: the carried value
+                    atpos = F.lin_add(F.lin_term(("pos", ev.evar, fam)), init.lin)  # the engine's reading of a counter stepped once per element
+                    step_ok = bool(cs) and (all(isinstance(v, LinV) and v.lin == F.lin_add(F.lin_term(carried), F.lin_const(1)) for g, v in cs)
+                                            or all(isinstance(v, LinV) and v.lin == F.lin_add(atpos, F.lin_const(1)) for g, v in cs))
+                    # the key used for the store: the running value
                     key_ok = False
                     for ev2, Q2 in iter_events(p.events):
-                        if ev2.kind == "dict.set" and Q2 and Q2[-1][0].id == ev.loop and isinstance(ev2.key, Sym) and ev2.key.label == carried:
+                        if ev2.kind == "dict.set" and Q2 and Q2[-1][0].id == ev.loop and ((isinstance(ev2.key, Sym) and ev2.key.label == carried) or (isinstance(ev2.key, LinV) and ev2.key.lin == atpos)):
                             key_ok = True
                     if start_ok and step_ok and key_ok:
                         return True
@@ -853,7 +855,12 @@ def fact_builder_sibling(rep, ex: Explorer):
                 for (kind, name), (init, cs, newv) in ev.vars.items():
                     if kind == "var" and isinstance(init, LinV) and init.lin == F.lin_add(F.lin_term("start"), F.lin_const(1)):
                         carried = ("carried", ev.loop, name)
-                        okk = all(isinstance(v, LinV) and v.lin == F.lin_add(F.lin_term(carried), F.lin_const(1)) for g, v in cs)
+                        atpos = F.lin_add(F.lin_term(("pos", ev.evar, FACTS)), init.lin)
+                        okk = bool(cs) and (all(isinstance(v, LinV) and v.lin == F.lin_add(F.lin_term(carried), F.lin_const(1)) for g, v in cs)
+                                            or all(isinstance(v, LinV) and v.lin == F.lin_add(atpos, F.lin_const(1)) for g, v in cs))
+                        # and the running value is the key of the entry stored for that fact
+                        stored = [ev2 for ev2, Q2 in iter_events(p.events) if ev2.kind == "dict.set" and Q2 and Q2[-1][0].id == ev.loop]
+                        okk = okk and bool(stored) and all((isinstance(e2.key, Sym) and e2.key.label == carried) or (isinstance(e2.key, LinV) and e2.key.lin == atpos) for e2 in stored)
         rep.check(okk, "FACT.shape", site, "fact keys", "keys start_index+1, +2, ...", extracted=str(okk), required="running key from start_index+1", function=site)
     rep.floor("build_fact_conditionals paths", n, 1)
     # augment: the builder is called with start index = highest key of the base (0 for an empty base); the result holds
